@@ -62,7 +62,7 @@ pub fn with<R>(f: impl FnOnce(&mut Env) -> R) -> R {
     let mut g = ENV.lock().unwrap_or_else(|e| e.into_inner());
     if g.is_none() {
         *g = Some(Env {
-            next_id: 1,
+            next_id: 100_000,
             ..Default::default()
         });
     }
@@ -72,7 +72,7 @@ pub fn with<R>(f: impl FnOnce(&mut Env) -> R) -> R {
 pub fn reset_all() {
     let mut g = ENV.lock().unwrap_or_else(|e| e.into_inner());
     *g = Some(Env {
-        next_id: 1,
+        next_id: 100_000,
         ..Default::default()
     });
 }
